@@ -442,6 +442,11 @@ def _check_history(case):
             elif kind == "set_kick":
                 settings["kick"] = op[1]
         sa = A.snapshot()
+        if kind == "set_t0" and ra == "ok" and len(sa["t"]) == 1 and sa["t"][0] != settings["t0"]:
+            # nothing has been recorded (fresh, after reset(), or after calls that failed / stopped inside their first step):
+            # the system sits at its start time, and that is what was just assigned
+            viols.append(V("t0_assignment", "system.t0 = {!r} on a system with no recorded step left it at t = {!r} after {}".format(settings["t0"], float(sa["t"][0]), hist), "t0", **attrs))
+            break
         if kind == "reset":
             resets_deep += 1 if n_before_reset >= 2 else 0
             f = A.f
